@@ -85,6 +85,7 @@ class C11Disk(Scenario):
         self._unraisable = sys.unraisablehook
         sys.unraisablehook = lambda *a, **k: None
         self.ls = seams.line_seam()
+        self.ls.enable()
         self.scr = seams.Scratch(self.ctx.scratch)
         self.scr.chdir(cfg["cwd"])
         self.hf = seams.make_list_hash(cfg["hash"], cfg["hseed"], cfg["squeeze"])
@@ -120,6 +121,7 @@ class C11Disk(Scenario):
         finally:
             import sys
 
+            seams.line_seam().disable()
             gc.collect()
             if getattr(self, "_unraisable", None) is not None:
                 sys.unraisablehook = self._unraisable
